@@ -139,6 +139,10 @@ def run(tier, repo):
     if rp.check(f is not None, "CIPHER-MAP", "get_cipher/present", "src/tls_handshake.rs", "get_cipher not found"):
         s = body_sym(F, f)
         rp.check(is_lookup(s, fld(P("self"), "cipher")), "CIPHER-MAP", "get_cipher", site(f), "get_cipher is not the registry lookup of self.cipher", found=sym_str(s)[:300])
+    # the registry the lookups go through must be the IANA table (an id dropped from the generated map would map to None)
+    from .c12 import table_rules
+    rp.rule("REGISTRY", "the map the lookups consult (static CIPHERS) has exactly the rows of scripts/tls-ciphersuites.txt")
+    table_rules(rp, F, repo, rule="REGISTRY")
     # constructors
     for path, table, ty in ((TH + "TlsClientHelloContents::<'a>::new", CH_NEW, TH + "TlsClientHelloContents"), (TH + "TlsServerHelloContents::<'a>::new", SH_NEW, TH + "TlsServerHelloContents")):
         f = F.fn(path)
